@@ -140,6 +140,10 @@ class Attached(Property):
             if not isinstance(modobj, self.basecls):
                 raise ConfigError(f'attached module {self.name}={modobj.name!r} '
                                   f'must inherit from {self.basecls.__qualname__!r}')
+            if modobj.initFailed:
+                # the error of the attached module is already reported
+                raise ConfigError(f'attached module {self.name}={modobj.name!r} '
+                                  f'failed to initialize')
             obj.attachedModules[self.name] = modobj
         return modobj
 
